@@ -28,6 +28,20 @@ type Entropy struct {
 	Fired  bool
 }
 
+// InjectedAs, when non-nil, is the error VALUE every failing seam of the current
+// run reports instead of its own sentinel: real signers, devices and readers
+// fail with io.EOF, io.ErrUnexpectedEOF, context errors, ... and a library
+// must not read a meaning of its own into any of them.  Set and cleared by
+// the scenario (one run at a time per worker process).
+var InjectedAs error
+
+func injected(sentinel error) error {
+	if InjectedAs != nil {
+		return InjectedAs
+	}
+	return sentinel
+}
+
 // ErrEntropy is the injected entropy failure.
 var ErrEntropy = errors.New("verif: injected entropy source failure")
 
@@ -50,7 +64,7 @@ func (e *Entropy) Read(p []byte) (int, error) {
 	if e.FailAt >= 0 {
 		if e.n >= e.FailAt {
 			e.Fired = true
-			return 0, ErrEntropy
+			return 0, injected(ErrEntropy)
 		}
 		if e.n+n > e.FailAt {
 			n = e.FailAt - e.n
@@ -97,6 +111,8 @@ type SpySigner struct {
 	// "bytes+err" (a real signature together with an error).
 	Fault string
 	Calls []SpyCall
+	// DigestCalls: digests handed to SignDigest (DigestSpySigner only)
+	DigestCalls [][]byte
 	// Log, when set, receives every call in order (shared across signers
 	// to observe global call order).
 	Log *[]string
@@ -120,7 +136,7 @@ func (s *SpySigner) Sign(rand io.Reader, content []byte) ([]byte, error) {
 	case "panic":
 		panic(SeamPanic{"signer " + s.Tag})
 	case "err":
-		return nil, ErrSigner
+		return nil, injected(ErrSigner)
 	case "empty":
 		return []byte{}, nil
 	case "nil":
@@ -130,9 +146,48 @@ func (s *SpySigner) Sign(rand io.Reader, content []byte) ([]byte, error) {
 		if len(sig) == 0 {
 			sig = []byte{1, 2, 3}
 		}
-		return sig, ErrSigner
+		return sig, injected(ErrSigner)
 	}
 	return s.Inner.Sign(rand, content)
+}
+
+// DigestSpySigner is a SpySigner that also offers cose.DigestSigner, as the
+// built-in ECDSA and RSA signers do.  go-cose hands every signer the complete
+// structure to be signed; should it ever hand over a digest instead, that
+// digest must be the hash of the very same structure.
+type DigestSpySigner struct{ *SpySigner }
+
+func (s DigestSpySigner) SignDigest(rand io.Reader, digest []byte) ([]byte, error) {
+	s.SpySigner.DigestCalls = append(s.SpySigner.DigestCalls, append([]byte{}, digest...))
+	if s.Log != nil {
+		*s.Log = append(*s.Log, "signdigest:"+s.Tag)
+	}
+	if ds, ok := s.Inner.(cose.DigestSigner); ok && s.Fault == "" {
+		return ds.SignDigest(rand, digest)
+	}
+	return nil, injected(ErrSigner)
+}
+
+// DigestSpyVerifier is the verifier-side counterpart.
+type DigestSpyVerifier struct{ *SpyVerifier }
+
+func (v DigestSpyVerifier) VerifyDigest(digest, signature []byte) error {
+	v.SpyVerifier.DigestCalls = append(v.SpyVerifier.DigestCalls, SpyCall{Content: append([]byte{}, digest...), Signature: append([]byte{}, signature...)})
+	if v.Log != nil {
+		*v.Log = append(*v.Log, "verify:"+v.Tag)
+	}
+	switch v.Fault {
+	case "accept":
+		return nil
+	case "err":
+		return injected(ErrVerifier)
+	case "reject":
+		return cose.ErrVerification
+	}
+	if dv, ok := v.Inner.(cose.DigestVerifier); ok {
+		return dv.VerifyDigest(digest, signature)
+	}
+	return cose.ErrVerification
 }
 
 // SpyVerifier wraps a verifier and records what it is offered.
@@ -141,8 +196,10 @@ type SpyVerifier struct {
 	Alg   cose.Algorithm
 	Fault string // "" (delegate), "err" (injected failure), "accept" (return nil without looking: lets a spy see every call)
 	Calls []SpyCall
-	Log   *[]string
-	Tag   string
+	// DigestCalls: what VerifyDigest was offered (DigestSpyVerifier only)
+	DigestCalls []SpyCall
+	Log         *[]string
+	Tag         string
 }
 
 func (v *SpyVerifier) Algorithm() cose.Algorithm { return v.Alg }
@@ -156,7 +213,7 @@ func (v *SpyVerifier) Verify(content, signature []byte) error {
 	case "panic":
 		panic(SeamPanic{"verifier " + v.Tag})
 	case "err":
-		return ErrVerifier
+		return injected(ErrVerifier)
 	case "accept":
 		return nil
 	case "reject":
@@ -192,7 +249,7 @@ func (h *HSM) Sign(rand io.Reader, digest []byte, opts crypto.SignerOpts) ([]byt
 	}
 	switch h.Mode {
 	case "err":
-		return nil, ErrHSM
+		return nil, injected(ErrHSM)
 	case "chosen":
 		return asn1.Marshal(rs{h.R, h.S})
 	case "empty":
@@ -207,7 +264,7 @@ func (h *HSM) Sign(rand io.Reader, digest []byte, opts crypto.SignerOpts) ([]byt
 	case "bytes+err":
 		// a device client that fills the caller's buffer (here even with a
 		// genuine signature) and reports a failure all the same
-		return sig, ErrHSM
+		return sig, injected(ErrHSM)
 	case "badDER":
 		out := append([]byte{}, sig...)
 		out[0] ^= 0x21
